@@ -26,20 +26,24 @@ TRUSTED = [
     "hook /repo/nsqlookupd/verif_hooks.go (build tag verif): VerifShiftClock, VerifRegistrationCount",
 ]
 ASSUMPTIONS = [
-    "C14 'partial': RegistrationDB locking / truly concurrent histories are not modelled (sequential model; the concurrent profile only checks final states of commuting operations)",
+    "C14 'partial': registration-map locking and data races below operation granularity are not modelled (sequential model; the concurrent profile only checks final states of commuting operations). "
+    "Known instance (go test -race, scratch worktree): Producer.Tombstone() writes tombstoned/tombstonedAt without a lock while /lookup and /nodes read them in IsTombstoned(). "
+    "By reading: any torn or stale read of ONE producer's mark (flag before time; wall/ext halves of time.Time mixed between the zero/previous and the new value) yields the answer of either the state before or the state after the tombstone, "
+    "so no single-producer /lookup answer can be shown wrong; when two connections share broadcast_address:http_port a concurrent /lookup may list one and hide the other (a transient answer equal to no sequential state) - "
+    "the window is a few instructions inside one handler loop and cannot be scheduled without a yield hook in http.go, so it is recorded here, not driven",
     "the behaviour exactly AT a threshold (age == timeout to the nanosecond) is proved on the model (<= / <) but cannot be driven on the real clock",
-    "the tombstone request whose topic argument is the wildcard '*' (not an nsqadmin request) marks one registration per node chosen by Go map iteration order: excluded from the deterministic spec (op_det); /lookup with the wildcard is checked against lower/upper bounds",
+    "/lookup with the wildcard '*' as topic merges all topics and its producer list depends on Go map iteration order when a node is tombstoned for only some of its topics: checked against lower/upper bounds (the admin handlers refuse the wildcard since the fix of F14)",
 ]
 LEVEL_TEXT = ("Machine-checked proof (Coq 8.16.1) that nsqlookupd's RegistrationDB and its TCP/HTTP handlers, transcribed as an executable Gallina model "
               "(association-list DB with AddProducer/RemoveProducer/FindRegistrations/FindProducers/FilterByActive/IsTombstoned as in registration_db.go; "
               "IDENTIFY/REGISTER/UNREGISTER/PING/IOLoop-exit; the five admin handlers; explicit time), refine a plain registry specification "
               "(connected nodes, key sets, (key,producer) relation, tombstone marks with times): abs(step s op) == g_step(abs s) op for every state "
-              "satisfying the invariant and every operation, hence for every history; the answers of /topics, /channels, /lookup (found / channels / "
+              "satisfying the invariant and EVERY operation (no exclusion: since the repair of F14 the admin handlers refuse the wildcard topic), hence for every history; the answers of /topics, /channels, /lookup (found / channels / "
               "producers) and /nodes (nodes, their topics, tombstone flags) are exactly the specification's sets, without duplicates; corollaries in the "
               "property's words: producers = connected & last_update within the inactivity timeout & registered & not (tombstoned & age < lifetime); "
               "Disconnect removes a node from every list at once and touches nobody else; a tombstone changes only the named (producer, topic), lapses at "
               "the lifetime, is cleared by that producer's UNREGISTER of the topic and not by REGISTER; an ephemeral topic key leaves with its last UNREGISTER "
-              "(not on disconnect). Tied to the source by generated route/dispatch/handler-summary tables and by differential correspondence on a real in-process nsqlookupd.")
+              "(not on disconnect; the 'obvious' listing rule and 'ephemeral keys are removed when empty' are refuted by three 3-step histories, kept as theorems and replayed on the daemon). Tied to the source by generated route/dispatch/handler-summary tables and by differential correspondence on a real in-process nsqlookupd.")
 LEVEL_NOTE = ("Trusted: Coq kernel + vm_compute; gotables; the verif clock hook; Go maps/mutex/json/http modelled. Correspondence is sampled "
               "(random + exhaustive small scope); the theorems are not. Concurrency and exact-threshold instants are partial (see assumptions).")
 TECHNIQUE = "Coq refinement proof (data structure -> abstract registry, invariant, all histories) + differential correspondence on the real daemon"
